@@ -33,6 +33,10 @@ SOURCE = {
  G + "Tagged": (["T"], [], [("id", "u32")]),
  G + "MyBox": (["T"], [], [(None, P("T"))]),
  G + "UsesMyBox": (["T"], [], [("plain", item(G + "MyBox", "u8")), ("generic", item(G + "MyBox", P("T"))), ("real", ("box", item(G + "MyBox", P("T")))), ("v", ("vec", item(G + "MyBox", "u16")))]),
+ G + "Measured": (["T", "U"], ["U"], [("value", P("T")), ("scale", "u8")]),
+ G + "Reading": (["T"], [], [("raw", item(G + "Measured", P("T"))), ("n", "u8")]),
+ G + "Pair": (["Hash", "Hashing"], [], [("first", P("Hash")), ("second", P("Hashing"))]),
+ G + "Swapper": (["A", "B"], [], [("p", item(G + "Pair", P("B"), P("A"))), ("q", item(G + "Pair", P("A"), P("B"))), ("v", ("vec", item(G + "Pair", P("B"), P("A"))))]),
  "replay::corpus::compact::CompG": (["T"], [], [("value", ("compact", P("T"))), ("other", "u8")]),
  "replay::corpus::bits::BitsG": (["S", "O"], [], [("f", ("bits", P("S"), P("O")))]),
  "replay::corpus::reach::Foo": (["T"], [], [("t", P("T"))]),
@@ -160,7 +164,7 @@ def make_family(name, reg0, st, root=None):
 def families(eng, tier, seed):
     C = corpus(); fams = []
     sets = [STD, Settings(["mod_name rt", "compact_path ::c::Compact", "bits_path b::Bits", "codec_attrs", "alloc ::alloc", "docs 0"])] + ([Settings(["compact_path ::c::Compact", "bits_path ::b::Bits"])] if tier == "thorough" else [])
-    for n in ("generics", "modules", "phantom", "two_unused", "cow_generic", "compact_generic", "bits_generic", "reach", "compact_as", "tree", "assoc_noskip", "assoc_same", "mybox", "matrix", "tagged"):
+    for n in ("generics", "modules", "phantom", "two_unused", "cow_generic", "compact_generic", "bits_generic", "reach", "compact_as", "tree", "assoc_noskip", "assoc_same", "mybox", "matrix", "tagged", "skipnest", "swapper"):
         r = C[n]
         for si, st in enumerate(sets):
             if n not in ("assoc_noskip",): fams.append(make_family("program-%s-s%d" % (n, si), r, st))
